@@ -4,6 +4,7 @@ import Chokan.Gen.Romaji
 import Driver.DicOps
 import Driver.KanaOps
 import Driver.TrieOps
+import Driver.KkcOps
 
 namespace Driver
 open Chokan
@@ -22,12 +23,16 @@ def romaOps (op : String) (arg : String) : Option String :=
 
 structure State where
   trie : Option Chokan.Trie.Trie := none
+  kkc : KkcState := {}
 
 def handle (st : State) (line : String) : State × String :=
   let (op, arg) := splitOp line
   match trieOps st.trie op arg with
   | some (t, r) => ({ st with trie := t }, r.trimAsciiEnd.toString)
   | none =>
+    match kkcOps st.kkc op arg with
+    | some (k, r) => ({ st with kkc := k }, r.trimAsciiEnd.toString)
+    | none =>
     let r := ((romaOps op arg).orElse fun _ => dicOps op arg).orElse fun _ => kanaOps op arg
     match r with
     | some r => (st, r.trimAsciiEnd.toString)
